@@ -74,6 +74,18 @@ pub struct RealCase {
 /// generous bound: the expected time is microseconds, the tick interval is an hour
 const PROMPT: Duration = Duration::from_secs(20);
 
+/// Once a call has missed the bound in this process, later waits (shrinking re-runs the scenario many
+/// times) use a bound of 3 s - still six orders of magnitude above the expected time.
+static MISSED_ONCE: std::sync::atomic::AtomicBool = std::sync::atomic::AtomicBool::new(false);
+
+fn bound() -> Duration {
+    if MISSED_ONCE.load(Ordering::SeqCst) {
+        Duration::from_secs(3)
+    } else {
+        PROMPT
+    }
+}
+
 fn prompt<F: FnOnce() + Send + 'static>(what: &str, f: F) -> Result<Duration, Fail> {
     let (tx, rx) = mpsc::channel();
     let t0 = Instant::now();
@@ -81,9 +93,13 @@ fn prompt<F: FnOnce() + Send + 'static>(what: &str, f: F) -> Result<Duration, Fa
         f();
         let _ = tx.send(());
     });
-    match rx.recv_timeout(PROMPT) {
+    let b = bound();
+    match rx.recv_timeout(b) {
         Ok(()) => Ok(t0.elapsed()),
-        Err(_) => Err(Fail::new("not_prompt", format!("{what} did not return within {PROMPT:?} although the tick interval (1 h) should not matter"))),
+        Err(_) => {
+            MISSED_ONCE.store(true, Ordering::SeqCst);
+            Err(Fail::new("not_prompt", format!("{what} did not return within {b:?} although the tick interval (1 h) should not matter")))
+        }
     }
 }
 
@@ -97,10 +113,14 @@ fn run_real(c: &RealCase) -> CaseResult {
         let r = catch(|| run_scenario(&c2));
         let _ = tx.send(r);
     });
-    match rx.recv_timeout(PROMPT + PROMPT) {
+    let b = bound() * 2;
+    match rx.recv_timeout(b) {
         Ok(Ok(r)) => r,
         Ok(Err(p)) => Err(Fail::new("panic", format!("scenario {} panicked: {p}", c.scenario % 10))),
-        Err(_) => Err(Fail::new("not_prompt", format!("scenario {} did not come to an end within {:?} (a call or a destructor blocks although the tick interval should not matter)", c.scenario % 10, PROMPT + PROMPT))),
+        Err(_) => {
+            MISSED_ONCE.store(true, Ordering::SeqCst);
+            Err(Fail::new("not_prompt", format!("scenario {} did not come to an end within {b:?} (a call or a destructor blocks although the tick interval should not matter)", c.scenario % 10)))
+        }
     }
 }
 
@@ -349,14 +369,18 @@ fn run_unwind(c: &UnwindCase) -> CaseResult {
     });
     ensure!(owner.join().is_err(), "harness", "the owner thread did not panic");
     let t0 = Instant::now();
-    while os_threads() > before && t0.elapsed() < PROMPT {
+    let b = bound();
+    while os_threads() > before && t0.elapsed() < b {
         std::thread::sleep(Duration::from_millis(5));
     }
     let after = os_threads();
+    if after > before {
+        MISSED_ONCE.store(true, Ordering::SeqCst);
+    }
     ensure!(
         after <= before,
         "ticker_outlives_last_handle",
-        "a thread that owned the only handle(s) of a bar with a {interval:?} steady ticker panicked; {PROMPT:?} after it was joined the process still has {after} threads ({before} before): the ticker thread was not stopped when the last handle was dropped"
+        "a thread that owned the only handle(s) of a bar with a {interval:?} steady ticker panicked; {b:?} after it was joined the process still has {after} threads ({before} before): the ticker thread was not stopped when the last handle was dropped"
     );
     let mut v = Verdict::default();
     v.nontrivial = true;
